@@ -5,7 +5,20 @@ use super::*;
 use std::fs as mfs;
 use std::path::{Path, PathBuf};
 
+macro_rules! s_harness { ($(#[$m:meta])* fn $n:ident() $b:block) => {
+    #[kani::proof]
+    #[kani::unwind(20)]
+    #[kani::stub(utils::datafile_name, datafile_name_model)]
+    #[kani::stub(utils::hintfile_name, hintfile_name_model)]
+    #[kani::stub(core::slice::memchr::memchr, memchr_model)]
+    $(#[$m])* fn $n() $b
+} }
+pub(crate) use s_harness;
+
 mod c01;
+mod sc;
+mod c03;
+
 #[cfg(verif_probe)]
 mod probe;
 
